@@ -4,6 +4,7 @@ CONSTANTS
   NoBlock = NoBlock
   NoTx = NoTx
   VarBase = 2
+  PoolRefAhead = 2
   BeyondHeadStops = TRUE
   MaxNew = 5
   MaxSib = 3
